@@ -86,7 +86,7 @@ func buildSpace(thorough bool) *space {
 			d1 = b.Desc
 		}
 	}
-	var prim, sec []pktgen.Base
+	var prim, sec, keyv []pktgen.Base
 	refused := map[string]string{}
 	try := func(name string, d pktgen.Desc, primary bool) {
 		b := pktgen.Build(&d)
@@ -94,7 +94,9 @@ func buildSpace(thorough bool) *space {
 			refused[name] = b.Err.Error()
 			return
 		}
-		if primary || thorough {
+		if d.Signer >= 0 && pktgen.Signers()[d.Signer].KeyVariant {
+			keyv = append(keyv, pktgen.Base{Name: name, Desc: d}) // key material variants: base shapes only, both tiers
+		} else if primary || thorough {
 			prim = append(prim, pktgen.Base{Name: name, Desc: d})
 		} else {
 			sec = append(sec, pktgen.Base{Name: name, Desc: d})
@@ -122,14 +124,15 @@ func buildSpace(thorough bool) *space {
 		sp.primary = append(sp.primary, m)
 	}
 	sort.Strings(sp.primary)
-	add := func(ps *pktgen.Space) {
+	add := func(ps *pktgen.Space, maxPay int) {
 		for _, c := range ps.Cases {
-			if d, ok := ps.Desc(c); ok {
+			if d, ok := ps.Desc(c); ok && d.PaySize <= maxPay {
 				sp.cases = append(sp.cases, item{label: ps.Label(c), d: d, depth: len(c.Devs)})
 			}
 		}
 	}
-	add(pktgen.Enumerate(prim, k, "signer"))
+	add(pktgen.Enumerate(prim, k, "signer"), 1<<30)
+	add(pktgen.Enumerate(keyv, 0), 1<<30)
 	if len(sec) > 0 {
 		var skip []string
 		for _, dm := range allDims {
@@ -137,7 +140,7 @@ func buildSpace(thorough bool) *space {
 				skip = append(skip, dm)
 			}
 		}
-		add(pktgen.Enumerate(sec, 1, skip...))
+		add(pktgen.Enumerate(sec, 1, skip...), 60000) // secondary modes: payload sizes up to 253 bytes
 	}
 	sort.SliceStable(sp.cases, func(i, j int) bool { return sp.cases[i].depth < sp.cases[j].depth })
 	// outer-length boundary sweep: the four signed base shapes x every ECDSA mode x payload sizes
@@ -231,6 +234,15 @@ func (c *caseCtx) note(set, v string) {
 		c.sets[set] = map[string]bool{}
 	}
 	c.sets[set][v] = true
+}
+
+// signerWord names the signer in a key: the family, or the exact mode for key-material variants
+// (there the key is the point: e.g. "hmac-key64").
+func signerWord(sp *pktgen.SignerSpec) string {
+	if sp.KeyVariant {
+		return sp.Name
+	}
+	return sp.Family
 }
 
 func kind(d *pktgen.Desc) string {
@@ -499,7 +511,7 @@ func evalCase(s *space, idx int, startBit int, careful bool, thorough bool, dead
 	if hasValidator {
 		cc.stat["validations"]++
 		if !validate(b.SignerSp, ref) {
-			cc.viol("C12.accept", "matching validator rejects an untampered packet ("+b.SignerSp.Family+" signer, "+b.SignerSp.Family+" validator)",
+			cc.viol("C12.accept", "matching validator rejects an untampered packet ("+signerWord(b.SignerSp)+" signer, "+b.SignerSp.Family+" validator)",
 				fmt.Sprintf("%s: announced signature type %d, %d-byte signature value", fam, ref.sig.SigType(), len(ref.sig.SigValue())), nil)
 			hasValidator = false // tampering cannot be judged against a validator that rejects everything
 			cc.stat["tamper_skipped_validator_rejects_original"]++
@@ -1150,8 +1162,9 @@ func main() {
 		"tamper_worker_deaths":                             nDeaths,
 		"tamper_worker_death_examples":                     deaths,
 		"bounds": map[string]any{
-			"shapes":               "bases {Interest all-optional-fields, Interest minimal+parameters, Data plain, Data all-MetaInfo+content} x every signer mode, plus two unsigned Interests with parameters; quick tier: every <=1 deviation of the C03 generator (signer dimension excluded; name shapes with 4-8 zero-length components, present-but-empty parameters included) for the primary modes and the unsigned Interests, base shape + payload-size deviations for the other modes; thorough tier: every <=2 deviations for every mode",
+			"shapes":               "bases {Interest all-optional-fields, Interest minimal+parameters, Data plain, Data all-MetaInfo+content} x every signer mode, plus two unsigned Interests with parameters; quick tier: every <=1 deviation of the C03 generator (signer dimension excluded; name shapes with 4-8 zero-length components, present-but-empty parameters included) for the primary modes and the unsigned Interests, base shape + payload-size deviations (up to 253 bytes) for the other modes, base shapes for the key-material variants; thorough tier: every <=2 deviations for every mode",
 			"primary_modes":        s.primary,
+			"key_material":         fmt.Sprintf("besides the default keys: HMAC keys of %v bytes (around the SHA-256 digest and block sizes) for the Data and the Interest HMAC signer, a second ECDSA P-256 key and a second RSA-2048 key, each on the four base shapes (all clauses incl. every-bit tampering)", pktgen.HmacKeyLens),
 			"outer_length_sweep":   "4 base shapes x every ECDSA mode x payload sizes putting the ESTIMATED outer length on 250..258 and 65533..65540; each case built until 3 different signature lengths were seen or 24 builds; cover+accept on every build (counters sweep_*)",
 			"delayed_verification": "each worker keeps ONE signer object per mode; the un-joined Wire of the previous packet a signer object signed is joined, decoded, compared with what the signer was handed and validated only after the same object signed the next packet",
 			"segmentation":         "C12.cover: every 1-cut (packets >1200 B: cuts within 2 bytes of element offsets), every 2-cut for packets <=100 B (thorough, <=1 deviation: <=400 B) else all pairs of element offsets, every 3-cut for packets <=56 B (thorough, <=1 deviation: <=112 B) else outer-header-end + every pair of element offsets",
